@@ -3,6 +3,7 @@ mod net;
 mod oracle;
 mod rng;
 mod seq;
+mod server;
 mod stream;
 mod sut;
 mod wire;
@@ -55,6 +56,70 @@ fn main() {
             let dh: Vec<String> = r.drift_hist.iter().map(|(k, v)| format!("\"{}\":{}", k, v)).collect();
             r.extra = format!(",\"evictions\":{},\"drift_classes\":{{{}}}", r.evictions, dh.join(","));
             r.write(&out, "policy", &profile, seed);
+        }
+        "server" => {
+            // scripts run in parallel, each against its own server; results are written in script order
+            let mut master = rng::Rng::new(seed ^ 0x5e7);
+            let scripts: Vec<Vec<String>> = if let Some(f) = m.get("ops") {
+                let txt = std::fs::read_to_string(f).expect("ops file");
+                let mut v: Vec<Vec<String>> = vec![];
+                for l in txt.lines().filter(|l| !l.trim().is_empty()) {
+                    if l.starts_with("srv ") || v.is_empty() {
+                        v.push(vec![]);
+                    }
+                    v.last_mut().unwrap().push(l.trim().to_string());
+                }
+                v
+            } else {
+                (0..count).map(|_| server::gen_script(&mut master.fork())).collect()
+            };
+            let results: Vec<Vec<String>> = std::thread::scope(|sc| {
+                let hs: Vec<_> = scripts.iter().map(|ops| sc.spawn(move || {
+                    let mut s = server::Script::new();
+                    ops.iter().map(|l| s.exec(l)).collect::<Vec<String>>()
+                })).collect();
+                hs.into_iter().map(|h| h.join().unwrap()).collect()
+            });
+            let mut r = seq::Runner::new();
+            let mut ends: std::collections::BTreeMap<String, u64> = Default::default();
+            for (ops, outs) in scripts.iter().zip(results.iter()) {
+                r.prog_start.push(r.ops.len());
+                // P17 on the implementation's own answers
+                let prog = r.prog_start.len() - 1;
+                let mut limit = 0usize;
+                let mut open: std::collections::BTreeSet<usize> = Default::default();
+                let mut last_served: Vec<usize> = vec![];
+                for (n, (o, x)) in ops.iter().zip(outs.iter()).enumerate() {
+                    let f: Vec<&str> = o.split(' ').collect();
+                    match f[0] {
+                        "srv" => limit = f[1].parse().unwrap(),
+                        "open" => { open.insert(f[1].parse().unwrap()); }
+                        "end" => { open.remove(&f[1].parse().unwrap()); }
+                        "probe" => {
+                            let served: Vec<usize> = x.split(' ').skip(1).filter_map(|t| t.parse().ok()).collect();
+                            if served.len() > limit {
+                                r.violations.push((prog, vec!["C17"], r.ops.len() + n, format!("{} connections are served at once ({:?}) under a connection limit of {}", served.len(), served, limit)));
+                            }
+                            last_served = served;
+                        }
+                        _ => {}
+                    }
+                }
+                // the script ends with: everybody closed, then limit+1 fresh connections
+                if last_served.len() != limit.min(open.len()) {
+                    r.violations.push((prog, vec!["C17"], r.ops.len() + ops.len() - 1, format!("after all earlier connections ended, {} of {} fresh connections are served under a limit of {} (slots lost or over-released)", last_served.len(), open.len(), limit)));
+                }
+                for (o, x) in ops.iter().zip(outs.iter()) {
+                    if let Some(h) = o.split(' ').nth(2) { if o.starts_with("end ") { *ends.entry(h.to_string()).or_insert(0) += 1; } }
+                    if o.starts_with("idle") { *ends.entry("idle-timeout".to_string()).or_insert(0) += 1; }
+                    r.ops.push(o.clone());
+                    r.outs.push(x.clone());
+                }
+            }
+            let e: Vec<String> = ends.iter().map(|(k, v)| format!("\"{}\":{}", k, v)).collect();
+            r.nontrivial = scripts.len() as u64;
+            r.extra = format!(",\"cases\":{},\"endings\":{{{}}}", scripts.len(), e.join(","));
+            r.write(&out, "server", &profile, seed);
         }
         "grid" => {
             let mut r = seq::Runner::new();
